@@ -4,6 +4,7 @@ from harness import corpus
 PROP = "C05"
 MONITORS = ("M-join", "M-ref")
 def scenarios(tier):
-    return corpus.fanout_ok_family(tier)
+    # (and a fan-out state whose definition is replaced between two executions)
+    return corpus.fanout_ok_family(tier) + [s for s in corpus.update_family(tier) if s.get("fanout")]
 def run(tier, seed):
     return common.engine_check(PROP, scenarios(tier), MONITORS, tier, seed)
